@@ -201,10 +201,25 @@ func gen(g *hx.Gen) {
 		g.Emit("gen pw=%s cost=%d rnd=%s", hx.Hex(pw), cost, hx.Hex(rnd))
 		if cost >= 4 && cost <= 6 && len(pw) <= 72 {
 			h, err := generate(pw, cost, rnd)
-			if err != nil {
-				panic(err)
+			if err != nil || len(h) != 60 {
+				// the real code refuses an input it should accept: the `gen` op above already
+				// shows the disagreement; use a fixed well-formed hash as mutation base instead
+				h = []byte("$2a$04$CCCCCCCCCCCCCCCCCCCCC.E5YPO9kmyuRGyh0XouQYb4YMJKvyOeW")
 			}
 			valid = append(valid, h)
+			// the right password against the hash with ONE character changed (hash part, esp. its
+			// first/last character, and the last salt character whose low 4 bits are unused)
+			for k := 0; k < 2; k++ {
+				hm := append([]byte(nil), h...)
+				pos := r.PickInt(59, 59, 29, 28, 58, r.Range(29, 59), r.Range(7, 28))
+				c := "./ABCDEFGHIJKLMNOPQRSTUVWXYZabcdefghijklmnopqrstuvwxyz0123456789"[r.Intn(64)]
+				if r.Chance(1, 3) { // neighbour in the alphabet: differs in the low bits only
+					c = hm[pos] ^ 1
+				}
+				hm[pos] = c
+				g.Stat("cmp.right-pw-1char")
+				g.Emit("cmp hash=%s pw=%s", hx.Hex(hm), hx.Hex(pw))
+			}
 			// other accepted spellings of the same hash: $2b$ / $2y$ / $2x$ / $2$ … and cost "+4"
 			hh := append([]byte(nil), h...)
 			switch r.Intn(8) {
@@ -295,13 +310,27 @@ func gen(g *hx.Gen) {
 		}
 		// a syntactically valid hash with a large cost would make Compare run 2^cost rounds:
 		// such strings are only sent to Cost (op `cost`)
-		if c, err := bcrypt.Cost(h); err == nil && c > 6 {
+		if c, ok := costOf(h); ok && c > 6 {
 			g.Stat("op.cost-only")
 			g.Emit("cost hash=%s", hx.Hex(h))
 			continue
 		}
 		g.Emit("cmp hash=%s pw=%s", hx.Hex(h), hx.Hex(cpw))
 	}
+}
+
+// costOf is the harness's own reading of the cost field (independent of the code under test): it
+// only decides whether a string may be handed to Compare (2^cost rounds) or to Cost alone.
+func costOf(h []byte) (int, bool) {
+	if len(h) < 8 || h[0] != '$' {
+		return 0, false
+	}
+	n := 3
+	if h[2] != '$' {
+		n = 4
+	}
+	c, err := strconv.Atoi(string(h[n : n+2]))
+	return c, err == nil
 }
 
 func exec(line string) string {
